@@ -32,36 +32,74 @@ Proof.
          (conj pinned_debug_c pinned_nsync_semaphore_futex_c)))))))))).
 Qed.
 
-Ltac in_list := vm_compute; repeat (first [ left; reflexivity | right ]).
-
+(* ---- the hand-offs other than the mutex: publishing site release, observing site acquire, each looked up in the
+        REGENERATED list of its file with its kind and its target ---- *)
 Lemma publication_orders :
-  In ("nsync_run_once_impl", 4%nat, Kstore, Orel, "once")%string expected_once_c /\
-  In ("nsync_run_once_impl", 5%nat, Kload, Oacq, "once")%string expected_once_c /\
-  In ("nsync_run_once", 1%nat, Kload, Oacq, "once")%string expected_once_c /\
-  In ("note_notify_child", 2%nat, Kstore, Orel, "notified.n")%string expected_note_c /\
-  In ("nsync_note_notified_deadline_", 1%nat, Kload, Oacq, "notified.n")%string expected_note_c /\
-  In ("nsync_counter_add", 3%nat, Kcas, Oacqrel, "value.c")%string expected_counter_c /\
-  In ("nsync_counter_value", 1%nat, Kload, Oacq, "value.c")%string expected_counter_c /\
-  In ("nsync_mu_unlock_slow_", 7%nat, Kstore, Orel, "waiting.nsync_dll_nsync_waiter_.p")%string expected_mu_c /\
-  In ("nsync_mu_lock_slow_", 5%nat, Kload, Oacq, "waiting.nw.w")%string expected_mu_c.
-Proof. repeat split; in_list. Qed.
+  (* once *)
+  has_rel (order_at sites_once_c "nsync_run_once_impl" 4 Kstore "once") = true /\
+  Forall (fun f => has_acq (order_at sites_once_c (fst f) (snd f) Kload "once") = true)
+         [("nsync_run_once_impl", 1); ("nsync_run_once_impl", 5); ("nsync_run_once", 1); ("nsync_run_once_arg", 1);
+          ("nsync_run_once_spin", 1); ("nsync_run_once_arg_spin", 1)]%string /\
+  (* note *)
+  has_rel (order_at sites_note_c "note_notify_child" 2 Kstore "notified.n") = true /\
+  Forall (fun n => has_acq (order_at sites_note_c "nsync_note_notified_deadline_" n Kload "notified.n") = true) [1; 2] /\
+  has_rel (order_at sites_note_c "note_notify_child" 3 Kstore "waiting.nw") = true /\
+  (* counter *)
+  has_rel (order_at sites_counter_c "nsync_counter_add" 3 Kcas "value.c") = true /\
+  has_acq (order_at sites_counter_c "nsync_counter_add" 3 Kcas "value.c") = true /\
+  Forall (fun f => has_acq (order_at sites_counter_c (fst f) (snd f) Kload "value.c") = true)
+         [("nsync_counter_add", 1); ("nsync_counter_value", 1); ("nsync_counter_wait", 1); ("counter_ready_time", 2);
+          ("counter_enqueue", 1); ("counter_dequeue", 1)]%string /\
+  has_rel (order_at sites_counter_c "nsync_counter_add" 5 Kstore "waiting.nw") = true /\
+  has_acq (order_at sites_counter_c "counter_dequeue" 2 Kload "waiting.nw") = true /\
+  (* mutex wake-up *)
+  has_rel (order_at sites_mu_c "nsync_mu_unlock_slow_" 7 Kstore "waiting.nsync_dll_nsync_waiter_.p") = true /\
+  has_acq (order_at sites_mu_c "nsync_mu_lock_slow_" 5 Kload "waiting.nw.w") = true /\
+  has_acq (order_at sites_mu_wait_c "nsync_mu_wait_with_deadline" 6 Kload "waiting.nw.w") = true /\
+  (* condition variable signal / broadcast *)
+  has_rel (order_at sites_cv_c "wake_waiters" 6 Kstore "waiting.p_nw") = true /\
+  has_acq (order_at sites_cv_c "nsync_cv_wait_with_deadline_generic" 5 Kload "waiting.nw.w") = true /\
+  has_acq (order_at sites_cv_c "wake_waiters" 2 Kcas "word.pmu") = true /\
+  has_rel (order_at sites_cv_c "wake_waiters" 4 Kcas "word.pmu") = true /\
+  (* mu_wait.c *)
+  has_rel (order_at sites_mu_wait_c "nsync_mu_wait_with_deadline" 5 Kcas "word.mu") = true /\
+  Forall (fun n => has_rel (order_at sites_mu_wait_c "nsync_mu_unlock_without_wakeup" n Kcas "word.mu") = true) [1; 3] /\
+  has_acq (order_at sites_mu_wait_c "mu_try_acquire_after_timeout_or_cancel" 2 Kcas "word.mu") = true /\
+  Forall (fun n => has_rel (order_at sites_mu_wait_c "mu_try_acquire_after_timeout_or_cancel" n Kstore "word.mu") = true) [8; 9].
+Proof.
+  (* one site at a time, so that a failure names the conjunct: "Unable to unify true with false" *)
+  repeat match goal with |- _ /\ _ => split end;
+    repeat (apply Forall_cons; [vm_compute; reflexivity|]); try apply Forall_nil; vm_compute; reflexivity.
+Qed.
 
 Lemma mutex_orders :
-  Forall (fun s => has_acq (order_of s) = true) [101; 103; 201; 203; 301; 303; 401; 403; 502]%Z /\
-  Forall (fun s => has_rel (order_of s) = true) [701; 703; 801; 803; 902; 903; 905; 602]%Z /\
-  Forall (fun x => s_target x = "word.mu"%string -> s_kind x <> Kstore)
-         (filter (fun x => negb (String.eqb (s_fn x) "nsync_mu_init")) sites_mu_c).
+  Forall (fun s => has_acq (order_of Kcas s) = true) [101; 103; 201; 203; 301; 303; 401; 403; 502]%Z /\
+  Forall (fun s => has_rel (order_of Kcas s) = true) [701; 703; 801; 803; 902; 903; 905; 602]%Z.
+Proof. split; repeat (apply Forall_cons; [vm_compute; reflexivity|]); apply Forall_nil. Qed.
+
+(* ---- every write to the word of an nsync_mu, in every file of the inventory ---- *)
+(* [mu_word_writes], [mu_word_releasing], [mu_word_acquiring], [word_target]: Model/HbModel.v *)
+Lemma mutex_word_writes :
+  map (fun x => (s_fn x, s_ord x, s_order x)) (filter (is_kind Kstore) mu_word_writes) =
+    [("mu_try_acquire_after_timeout_or_cancel", 8, Orel); ("mu_try_acquire_after_timeout_or_cancel", 9, Orel)]%string /\
+  map site_id (filter (id_in mu_word_releasing) mu_word_writes) = mu_word_releasing /\
+  Forall (fun x => has_rel (s_order x) = true) (filter (id_in mu_word_releasing) mu_word_writes) /\
+  map site_id (filter (id_in mu_word_acquiring) mu_word_writes) = mu_word_acquiring /\
+  Forall (fun x => has_acq (s_order x) = true) (filter (id_in mu_word_acquiring) mu_word_writes) /\
+  Forall (fun x => id_in mu_word_releasing x || id_in mu_word_acquiring x = true) mu_word_writes /\
+  Forall (fun x => word_target x = true -> on_mu_word x || on_cv_word x = true) all_sites /\
+  Forall (fun x => String.eqb (s_fn x) "nsync_spin_test_and_set_" = true -> String.eqb (s_target x) "w" = true) all_sites.
 Proof.
-  split; [|split].
-  - repeat constructor; vm_compute; reflexivity.
-  - repeat constructor; vm_compute; reflexivity.
-  - apply Forall_forall. intros x Hin Ht Hk.
-    assert (forallb (fun x => negb (String.eqb (s_target x) "word.mu")
-                              || match s_kind x with Kstore => false | _ => true end)
-                    (filter (fun x => negb (String.eqb (s_fn x) "nsync_mu_init")) sites_mu_c) = true) as H
+  split; [vm_compute; reflexivity|]. split; [vm_compute; reflexivity|].
+  split; [vm_compute; repeat constructor|]. split; [vm_compute; reflexivity|].
+  split; [vm_compute; repeat constructor|]. split; [vm_compute; repeat constructor|].
+  split; apply Forall_forall; intros x Hin.
+  - assert (H : forallb (fun x => negb (word_target x) || (on_mu_word x || on_cv_word x)) all_sites = true)
       by (vm_compute; reflexivity).
-    rewrite forallb_forall in H. specialize (H x Hin). rewrite Ht, Hk in H.
-    vm_compute in H. discriminate H.
+    rewrite forallb_forall in H. specialize (H x Hin). intros E. rewrite E in H. exact H.
+  - assert (H : forallb (fun x => negb (String.eqb (s_fn x) "nsync_spin_test_and_set_") || String.eqb (s_target x) "w")
+                        all_sites = true) by (vm_compute; reflexivity).
+    rewrite forallb_forall in H. specialize (H x Hin). intros E. rewrite E in H. exact H.
 Qed.
 
 (* ================================================================== *)
@@ -78,14 +116,14 @@ Lemma vle_join_r a b : vle b (vjoin a b).
 Proof. intros x; unfold vjoin; lia. Qed.
 
 (* a successful release-RMW publishes the thread's (new) view in the word's release view *)
-Lemma hb_cas_rel h t s o n : has_rel (order_of s) = true ->
+Lemma hb_cas_rel h t s o n : has_rel (order_of Kcas s) = true ->
   vle (views (hb_step h t (EvCas s o n true)) t) (rel_word (hb_step h t (EvCas s o n true))).
 Proof.
   intros Hr. unfold hb_step. rewrite Hr. cbn [views rel_word]. rewrite Nat.eqb_refl. apply vle_join_r.
 Qed.
 
 (* a successful acquire-RMW pulls the word's release view into the thread's view *)
-Lemma hb_cas_acq h t s o n : has_acq (order_of s) = true ->
+Lemma hb_cas_acq h t s o n : has_acq (order_of Kcas s) = true ->
   vle (rel_word h) (views (hb_step h t (EvCas s o n true)) t).
 Proof.
   intros Ha. unfold hb_step. rewrite Ha. cbn [views rel_word set_view]. rewrite Nat.eqb_refl.
@@ -96,8 +134,8 @@ Qed.
 Lemma hb_rel_mono h t e : vle (rel_word h) (rel_word (hb_step h t e)).
 Proof.
   unfold hb_step. destruct e as [s o n [|]|s v| | | | | | |]; cbn [rel_word set_view]; try apply vle_refl.
-  - destruct (has_rel (order_of s)); [apply vle_join_l | apply vle_refl].
-  - destruct (has_acq (order_of s)); cbn [rel_word set_view]; apply vle_refl.
+  - destruct (has_rel (order_of Kcas s)); [apply vle_join_l | apply vle_refl].
+  - destruct (has_acq (order_of Kload s)); cbn [rel_word set_view]; apply vle_refl.
 Qed.
 
 (* ================================================================== *)
@@ -166,10 +204,10 @@ Qed.
 (* what a step of thread t can do to t's own [held], given what it was (b) *)
 Definition cls (b : option mode) (w' : world) (e : ev) (t : nat) : Prop :=
   held (get w' t) = b \/
-  (held (get w' t) = None /\ exists s o n, e = EvCas s o n true /\ has_rel (order_of s) = true) \/
-  (held (get w' t) <> None /\ exists s o n, e = EvCas s o n true /\ has_acq (order_of s) = true).
+  (held (get w' t) = None /\ exists s o n, e = EvCas s o n true /\ has_rel (order_of Kcas s) = true) \/
+  (held (get w' t) <> None /\ exists s o n, e = EvCas s o n true /\ has_acq (order_of Kcas s) = true).
 
-Ltac site_order := match goal with |- _ (order_of _) = true => try (destruct_mode); vm_compute; reflexivity end
+Ltac site_order := match goal with |- _ (order_of _ _) = true => try (destruct_mode); vm_compute; reflexivity end
 with destruct_mode := match goal with m : mode |- _ => destruct m end.
 
 Ltac cls_keep :=
